@@ -409,6 +409,8 @@ class Run:
             ev["coverage"]["notes"] = self.notes
         # evidence describes runs against /repo itself; experiments against a scratch repository (VERIF_REPO) go elsewhere
         evdir = EVID if os.path.realpath(REPO) == "/repo" else os.path.join(BUILD, "evidence-scratch")
+        if os.environ.get("VERIF_EVIDENCE_DIR"):     # seed-variation experiments must not overwrite the committed evidence
+            evdir = os.environ["VERIF_EVIDENCE_DIR"]
         os.makedirs(evdir, exist_ok=True)
         with open(os.path.join(evdir, self.pid + ".json"), "w") as fh:
             json.dump(ev, fh, indent=1, sort_keys=True)
